@@ -39,6 +39,10 @@ type ClientConn struct {
 
 	Logger *slog.Logger
 
+	// sendTail is closed once the most recently queued transaction for this client has been written.
+	// It is only touched by the Server.processOutbox goroutine.
+	sendTail chan struct{}
+
 	mu sync.RWMutex
 }
 
